@@ -480,6 +480,46 @@ def run(chk):
     chk.ob("C11.R9:period-from-own-name", "an opened file's period is parsed from the name of the very path that was opened", r9)
 
 
+    # ---- R3b: a foreign directory entry is skipped, it never fails the listing ---------------------------------------------------------
+    def listing_total():
+        rd = P.body("emit_file::ActiveFileSet::<'a>::read")
+        so = [c for c in rd.calls(normal_only=True) if c.callee.get("name") in ("sort", "sort_unstable", "sort_by", "sort_unstable_by", "sort_by_key")]
+        nx = [c for c in rd.calls(normal_only=True) if c.callee.get("name") == "next" and rd.in_cycle(c.bb)]
+        if len(so) != 1 or len(nx) != 1:
+            raise mir.AnchorMissing("entry loop and sort in ActiveFileSet::read")
+        # from inside the loop every way to a return leads through the sort: no entry can abort the listing
+        for bb in rd.loop_body(nx[0].bb) if hasattr(rd, "loop_body") else []:
+            pass
+        if not rd.must_pass({so[0].bb}, start=nx[0].bb):
+            return False, ("the loop over directory entries in ActiveFileSet::read can return before the listing is complete (an entry that "
+                           "is not this set's - e.g. a name that is not valid UTF-8 - makes the whole read fail): the set is then empty, so "
+                           "retention deletes nothing and nothing is reused, whatever else shares the directory"), [], nx[0].loc
+        return True, "", [nx[0].loc, so[0].loc]
+    chk.ob("C11.R3:listing-total", "no directory entry can make the listing fail: foreign entries are skipped", listing_total)
+
+    def stem_and_extension():
+        dp = P.body("emit_file::dir_prefix_ext")
+        r = None
+        for rb in dp.return_blocks():
+            for path in dp.acyclic_paths(0, rb, limit=4000):
+                ps = mir.PathSummary(dp, path)
+                o = ps.ret()
+                if o[0] == "agg" and o[1].get("variant") == "Ok" and o[2] and o[2][0][0] == "agg" and len(o[2][0][2]) == 3:
+                    r = o[2][0][2]
+                    pre = {dp.blocks[v]["term"]["callee"].get("path") for k, v in common.roots(r[1]) if k == "callsite"}
+                    ext = {dp.blocks[v]["term"]["callee"].get("path") for k, v in common.roots(r[2]) if k == "callsite"}
+                    if "std::path::Path::file_stem" not in pre:
+                        others = sorted(x for x in pre if x and x.startswith("std::path::Path::"))
+                        return False, ("the prefix of a template is taken with %s, not Path::file_stem: prefix and extension must split the file "
+                                       "name at the same (last) dot, or a dotted template such as `svc.api.log` loses part of its prefix and "
+                                       "claims a sibling set's files" % (others or sorted(pre))), [], dp.span
+                    if "std::path::Path::extension" not in ext and not any(k == "const" for k, v in common.roots(r[2])):
+                        return False, "the extension is not Path::extension() or a constant default", [], dp.span
+        if r is None:
+            raise mir.AnchorMissing("Ok((dir, prefix, ext)) in dir_prefix_ext")
+        return True, "", [dp.span]
+    chk.ob("C11.R5:stem-and-extension", "prefix = Path::file_stem and extension = Path::extension of the template: both split at the last dot", stem_and_extension)
+
     # ---- R5b: the reader finds the period whatever the configured prefix contains -------------------------------------------------
     def r5b():
         from . import fmtspec
